@@ -78,7 +78,7 @@ def canjoin (args : List String) : String :=
   match args with
   | [js] => match Json.parse js with
     | .error _ => "bad-op"
-    | .ok j => toString (Pint.Props.C12.canJoin ((j.getObjValD "on").getBool?.toOption.getD false) (strs (j.getObjValD "m"))
+    | .ok j => toString (Pint.LabelFlow.canJoin ((j.getObjValD "on").getBool?.toOption.getD false) (strs (j.getObjValD "m"))
         (srcOf (j.getObjValD "l")) (srcOf (j.getObjValD "r")))
   | _ => "bad-op"
 
@@ -106,6 +106,26 @@ def lffrag (args : List String) : String :=
   | [js] => match Json.parse js with
     | .error _ => "bad-op"
     | .ok j => toString (frag12 (exprOf j))
+  | _ => "bad-op"
+
+/-- op: lfnever <expr json> → c1,c2,...: per source of `analyse`, the number of "never matched" verdicts `WalkSources`
+reaches from it -/
+def lfnever (args : List String) : String :=
+  match args with
+  | [js] => match Json.parse js with
+    | .error _ => "bad-op"
+    | .ok j => String.intercalate "," ((neverMatched (exprOf j)).map toString)
+  | _ => "bad-op"
+
+/-- op: lfjoined <U csv> <on> <m csv> <l json> <r json> → empty | nonempty -/
+def lfjoined (args : List String) : String :=
+  match args with
+  | [u, on, m, jl, jr] => match Json.parse jl, Json.parse jr with
+    | .ok l, .ok r =>
+      let U := (u.splitOn ",").filter (· != "")
+      let ml := (m.splitOn ",").filter (· != "")
+      if (joined U (on == "true") ml (exprOf l) (exprOf r)).isEmpty then "empty" else "nonempty"
+    | _, _ => "bad-op"
   | _ => "bad-op"
 
 end Driver.C04
